@@ -32,6 +32,9 @@ def tr(start, end):
 FILTERS = {
     # the four filters of IndexMgrMC (spec -> code)
     "fA": flt('<C:comp-filter name="VEVENT"><C:prop-filter name="SUMMARY"/></C:comp-filter>'),
+    "hasRrule": flt('<C:comp-filter name="VEVENT"><C:prop-filter name="RRULE"/></C:comp-filter>'),
+    "noRrule": flt('<C:comp-filter name="VEVENT"><C:prop-filter name="RRULE"><C:is-not-defined/></C:prop-filter>'
+                   '</C:comp-filter>'),
     "sumEsc": flt('<C:comp-filter name="VEVENT"><C:prop-filter name="SUMMARY"><C:text-match collation="i;octet">'
                   'Budget, Q3; final\nnotes</C:text-match></C:prop-filter></C:comp-filter>'),
     "locEsc": flt('<C:comp-filter name="VEVENT"><C:prop-filter name="LOCATION"><C:text-match>room, 2nd FLOOR'
@@ -164,6 +167,8 @@ BODIES = {
     "sumMix": (lambda U: cal(ev(U, "Alpha"), ev(U, None, dtstart="20200122T100000Z", dtend="20200122T110000Z",
                                               extra=("RECURRENCE-ID:20200122T100000Z",))), "multi"),
     # components nested two levels deep: an alarm inside the event, STANDARD inside VTIMEZONE
+    "weekly": (lambda U: cal(ev(U, "Weekly", dtstart="20200106T100000Z", dtend="20200106T110000Z",
+                               extra=("RRULE:FREQ=WEEKLY;COUNT=4",))), "plain"),
     "alarm": (lambda U: cal(ev(U, "Alpha", extra=("BEGIN:VALARM", "ACTION:DISPLAY", "DESCRIPTION:ring",
                                                    "TRIGGER:-PT15M", "END:VALARM"))), "plain"),
     "alarmTz": (lambda U: cal(TZ_BERLIN, ev(U, "Beta", "Room", extra=("BEGIN:VALARM", "ACTION:AUDIO",
@@ -251,6 +256,17 @@ class IndexSession:
             return
         self.classes.pop(n, None)
         self._rec({"op": "Delete", "n": n})
+
+    def expand(self):
+        """A client asks for the expanded form of every event (a read; HTTP level only - the
+        expansion is done by the report code, not by the store)."""
+        if self.level != "http":
+            return
+        body = ('<?xml version="1.0"?><C:calendar-query %s><D:prop><D:getetag/><C:calendar-data>'
+                '<C:expand start="20200101T000000Z" end="20210101T000000Z"/></C:calendar-data></D:prop>'
+                '<C:filter><C:comp-filter name="VCALENDAR"><C:comp-filter name="VEVENT"/></C:comp-filter></C:filter>'
+                '</C:calendar-query>' % NS).encode("utf-8")
+        self.world.request("REPORT", "/user/calendars/q/", [("Content-Type", "text/xml"), ("Depth", "1")], body)
 
     def _filter(self, xml):
         el = ET.fromstring(xml)
@@ -359,6 +375,7 @@ def random_ops(seed, length=40):
                 (["hasPrio", "noSeq", "catTwo"], ["zero", "cat2", "jan", "empty"]),
                 (["noCompleted", "todoJan", "todo", "noTodo"], ["todo", "todoN", "todoDone", "jan"]),
                 (["sumEsc", "locEsc", "noSum", "fA"], ["esc", "sumMix", "jan", "empty", "m3"]),
+                (["hasRrule", "noRrule", "tJan", "fA"], ["weekly", "jan", "feb", "m1"]),
                 (["calAlarm", "calNoAlarm", "evAlarm", "evNoAlarm", "calStandard", "evAlarmAction"],
                  ["alarm", "alarmTz", "jan", "tz", "todo"])]
     bodies = list(BODIES)
@@ -384,7 +401,9 @@ def random_ops(seed, length=40):
                 ops.append(["put", n0, b0])
                 ops.append(["delete", n0])
                 ops.append(["put", n0, b0])
-        elif r < 0.36:
+        elif r < 0.33:
+            ops.append(["expand"])
+        elif r < 0.37:
             # a member that cannot be parsed (damaged on disk), repaired under the same name later on
             broken = {}
             for o in ops:
@@ -416,6 +435,8 @@ def run_ops(ops, level, threshold, storekind="tree", tid=0):
                 s.put(op[1], op[2])
             elif op[0] == "delete":
                 s.delete(op[1])
+            elif op[0] == "expand":
+                s.expand()
             else:
                 s.query(op[1])
         t = s.trace(tid)
